@@ -460,3 +460,13 @@ def format_template(node):
     if strs:
         return '{}'.join(strs)
     return None
+
+
+def callee_name(node):
+    """Resolved callee path with a blanket impl's `T` replaced by the call's Self type."""
+    p = norm_path(callee_path(node) or callee_decl(node) or '?')
+    if p.startswith('<T as ') or p.startswith('<Self as '):
+        ga = node.get('gargs') if node.get('k') == 'MethodCall' else (node.get('f') or {}).get('gargs')
+        if ga:
+            p = '<' + norm_path(ga[0]) + p[p.index(' as '):]
+    return p
